@@ -28,6 +28,7 @@ PREDICTS = {
     'C10-swift-label': {'swift-label'},
     'C10-python-generic-alias': {'py-grammar', 'py-import-at-generic-alias'},
     'C10-python-empty-union': {'py-syntax'},
+    'C10-python-digit-name': {'py-syntax'},
     'C10-python-generic-enum-arg': {'py-import-not-subscriptable'},
 }
 
@@ -183,7 +184,7 @@ def python_verdict(text):
         sub = {n.lineno for n in tree.body if isinstance(n, ast.Assign) and any(isinstance(t, ast.Subscript) for t in n.targets)}
         # a failure raised BY a `Name[T] = ..` statement is the generic-alias defect itself, not a second one
         kind = 'py-import-at-generic-alias' if lines and lines[-1] in sub else 'py-import'
-        if kind == 'py-import' and isinstance(e, TypeError) and 'not subscriptable' in str(e):
+        if kind == 'py-import' and isinstance(e, TypeError) and ('not subscriptable' in str(e) or 'is not a generic class' in str(e)):
             kind = 'py-import-not-subscriptable'
         fails.append(kind)
         why.append(f'{type(e).__name__}: {e}')
@@ -371,6 +372,7 @@ WITNESSES = [
     ('scala', {'package': 'com.x'}, '#[typeshare]\npub struct A { #[serde(default)] pub x: String }\n', 'C10-scala-default'),
     ('swift', {}, '#[typeshare]\npub struct A { pub r#let: String, pub inout: u8 }\n', 'C10-swift-label'),
     ('python', {}, '#[typeshare]\npub type A<T> = Vec<T>;\n', 'C10-python-generic-alias'),
+    ('python', {}, '#[typeshare]\n#[serde(tag = "t", content = "c")]\npub enum G { #[serde(rename = "1a")] V(u8) }\n#[typeshare]\npub struct S { pub _1x: u8 }\n', 'C10-python-digit-name'),
     ('python', {}, '#[typeshare]\n#[serde(tag = "t", content = "c")]\npub enum G<T> { V(T) }\n#[typeshare]\npub type Al = Vec<G<u8>>;\n', 'C10-python-generic-enum-arg'),
 ]
 
@@ -427,8 +429,23 @@ def run(chk):
     # 1. one witness per finding class, against the real code
     wcases = [(l, c, s, {'witness': k}) for l, c, s, k in WITNESSES]
     drift += judge(chk, wcases, 'witness')
+    # 1b. the class that only the IR can reach (the parser rejects tag/content on an enum without data variants)
+    empty = {'kind': 'enum', 'algebraic': True, 'tag': 't', 'content': 'c', 'id': ir.mk_id('E'), 'generics': [], 'comments': [], 'variants': [],
+             'decorators': [], 'is_recursive': False, 'is_redacted': False}
+    r = back.run_ir([('python', {}, {'enums': [empty]}, False)])[0]
+    chk.evaluations += 1
+    if r['impl'][0] == 'ok':
+        fl, w = python_verdict(r['impl'][1])
+        cls = vf.model([f'(c10_cls python s {back.items_sx({"enums": [empty]})})'])[0]
+        known = list(vf.sx_get(cls, 'known'))
+        if 'py-syntax' in fl and known == ['C10-python-empty-union'] and back.same(r['impl'], r['model']):
+            if not chk.known('C10-python-empty-union', {'ir': 'empty algebraic enum'}):
+                chk.violation('ir-empty-union', {'items': {'enums': [empty]}}, 'unlisted finding class C10-python-empty-union')
+        elif fl or not back.same(r['impl'], r['model']):
+            chk.violation('ir-empty-union', {'items': {'enums': [empty]}, 'failures': fl, 'why': w, 'known': known},
+                          f'IR witness of C10-python-empty-union behaves differently: {fl} {w} known={known}')
     # 2. generated programs
-    n = 200 if chk.tier == 'quick' else 3000
+    n = 200 if chk.tier == 'quick' else 2000
     cases = []
     with_consts = gen_programs(rng, n, True)
     without = gen_programs(rng, n, False)
